@@ -114,7 +114,7 @@ def random_scn(rng, k, big=False, cached=None):
                     "origin": rng.choice([1, 777, 1000, 4097, 123456])})
     return {"kind": "content", "id": "s%d" % k, "comp": comp, "level": level,
             "creator": rng.choice(["pack", "pack", "basic"]), "concat": rng.choice(["one", "two", "none"]), "cached": cached,
-            "ops": ops, "origin": "random"}
+            "ops": ops, "origin": "random", "free_data": [rng.randrange(256) for _ in range(rng.choice([0, 0, 1, 24]))]}
 
 
 def long_scns(tier):
